@@ -5,7 +5,7 @@ M/T: spec/Downstream.tla: the extracted bytes are the payload, a proper prefix o
      no larger length is (per ascending sweep of one (type, codec, name length, content)).
 G: drv_down runs the REAL pipe: write_dns() of iodined.c (the driver #includes the program's .c file) -> wire bytes ->
    read_dns_withq()/dns_namedec() of client.c, for payload lengths 2..4096 (thorough: every length; quick: every 16th +
-   boundaries) x {NULL, PRIVATE, TXT, SRV, MX, CNAME, A} x {T,S,U,V,R where legal} x {shortest, longest} query name x
+   boundaries) x {NULL, PRIVATE, TXT, SRV, MX, CNAME, A} x {T,S,U,V,R} (R with a host-name type is served as Base32) x {shortest, longest} query name x
    {all-0x00, all-0xFF, probe pattern, pseudo-random}.
 """
 import json
@@ -27,10 +27,10 @@ def main(tier):
                             sigfn=lambda ev: "qt%s:%s:%s" % (ev.get("qt"), ev.get("codec"),
                                                             "differs" if ev.get("glen", 0) <= ev.get("len", 0) else "longer"))
     chk.cov["evaluations"] = out["events"]
-    chk.cov["sweeps"] = 7 * 5 * 2 * 4 - 4 * 2 * 4
+    chk.cov["sweeps"] = 7 * 5 * 2 * 4
     chk.cov["exhaustive"] = not q
     chk.cov["exhaustive_what"] = ("every payload length 2..4096" if not q else "payload lengths 2..40, every 16th, and boundaries") + \
-        " x 7 record types x legal downstream codecs x 2 name lengths x 4 contents"
+        " x 7 record types x 5 downstream codecs x 2 name lengths x 4 contents"
     chk.cov["distinct_nontrivial"] = dn
     chk.cov["rule"] = ("one evaluation = one payload pushed through the real write_dns -> read_dns_withq pipe and judged by TLC; "
                        "non-trivial = distinct events in which more than 2 bytes were delivered")
